@@ -3,7 +3,7 @@
 property's quick check against each of them (patch applied to /repo's working tree, reverted straight
 afterwards; nothing is ever committed in /repo).
 
-  tools/seedmatrix.py import <srcdir>      copy <srcdir>/<Cxx>/<v>/{patch[.ported].diff,demo_test.go,notes.txt}
+  tools/seedmatrix.py import <srcdir> [--wave2]   (--wave2: the C18 variants were delivered as C17/c,d) copy <srcdir>/<Cxx>/<v>/{patch[.ported].diff,demo_test.go,notes.txt}
   tools/seedmatrix.py run [Cxx[/v] ...]    run the checks, update meta.json and seeded/RESULTS.md
 """
 import json, os, re, subprocess, sys, shutil, glob, time
@@ -51,10 +51,10 @@ def pick(secs, rx, notes=''):
             return (h + '\n' + b).strip()[:1200]
     return ''
 
-def do_import(src):
+def do_import(src, remap=False):
     for d in sorted(glob.glob(src + '/C??/?/')):
         prop, var = d.rstrip('/').split('/')[-2:]
-        tprop, tvar = REMAP.get((prop, var), (prop, var))
+        tprop, tvar = REMAP.get((prop, var), (prop, var)) if remap else (prop, var)
         dst = f'{SEEDED}/{tprop}/{tvar}'
         os.makedirs(dst, exist_ok=True)
         ported = os.path.exists(d + 'patch.ported.diff')
@@ -138,7 +138,7 @@ def results():
 
 if __name__ == '__main__':
     if len(sys.argv) >= 3 and sys.argv[1] == 'import':
-        do_import(sys.argv[2])
+        do_import(sys.argv[2], remap='--wave2' in sys.argv)
     elif len(sys.argv) >= 2 and sys.argv[1] == 'run':
         run(sys.argv[2:])
     elif len(sys.argv) >= 2 and sys.argv[1] == 'results':
